@@ -125,16 +125,22 @@ Definition elab_ref (m : model) (lm : lmethod) (rb : ref_body) : rmeth :=
       let ok_arm := match find_arm v (m_arms m) with
                     | Some (ArmClosure _ b (SVar a) _) => String.eqb a (m_direct_param m) && negb (String.eqb b (m_direct_param m))
                     | _ => false end in
+      (* family members: `let actor = actor.lock()` inside the closure re-binds a name; the receiver must be that guard and
+         the lock must be taken on the closure parameter *)
+      let lkb := match ab_lock ab with Some l => lk_binder l | None => cparam end in
       let ok_recv := match ab_call ab with
-                     | UMethod (SVar r) _ _ => String.eqb r cparam && match ab_lock ab with None => true | Some l => false end
-                     | UStatic _ _ (SVar a0 :: _) => String.eqb a0 cparam
+                     | UMethod (SVar r) _ _ =>
+                         match ab_lock ab with
+                         | None => String.eqb r cparam
+                         | Some l => String.eqb r (lk_binder l) && is_var (lk_on l) cparam end
+                     | UStatic _ _ (SVar a0 :: _) => String.eqb a0 cparam && match ab_lock ab with None => true | Some _ => false end
                      | _ => false end in
       let aroute := map (fun a => match a with
-                                  | SVar x => if String.eqb x cparam then unbound else
+                                  | SVar x => if String.eqb x cparam || String.eqb x lkb then unbound else
                                               match resolve_live params pre x with BParam i => i | _ => unbound end
                                   | _ => unbound end) (user_args (ab_call ab)) in
       let own := match ab_reply ab with
-                 | Some (SVar tx, _) => negb (String.eqb tx cparam) && match resolve_live params pre tx with BTx => true | _ => false end
+                 | Some (SVar tx, _) => negb (String.eqb tx cparam) && negb (String.eqb tx lkb) && match resolve_live params pre tx with BTx => true | _ => false end
                  | _ => false end in
       {| rm_reply := has_tx && waits; rm_send := if send_ok then sk else STry;
          rm_loud_send := loud (sd_closed (rb_send rb)); rm_loud_wait := wait_loud;
@@ -162,6 +168,11 @@ Definition cap_of (m : model) : option nat :=
   match ctor_of m with
   | Some c => match cb_chan c with Some (ChBounded n _) => Some (N.to_nat n) | _ => None end
   | None => None end.
+(* the same literal as a binary number (printed by the checks; large capacities stay cheap) *)
+Definition capN_of (m : model) : option N :=
+  match ctor_of m with
+  | Some c => match cb_chan c with Some (ChBounded n _) => Some n | _ => None end
+  | None => None end.
 Definition slf_bodies (m : model) : list slf_body :=
   flat_map (fun lm => match lm_body lm with BSlf b => [b] | _ => [] end) (m_methods m).
 Definition guard_ok (b : slf_body) : bool :=
@@ -175,10 +186,22 @@ Definition stop_first (m : model) : bool :=
               | inr _ => false end
   | None => false end.
 
+(* std and tokio receivers discard their queue when dropped; an async-channel keeps it while any sender exists, there the
+   generated play holds a guard that closes the channel and empties it whenever play ends (exit, return, unwinding) *)
+Definition drain_guard (m : model) : bool :=
+  match m_play m with
+  | Some p => match pl_shape p with
+              | inl sh => match pl_drain sh with
+                          | Some (rx, l) => String.eqb rx (pl_rx sh)
+                                            && match l, m_lib m with AsyncStd, AsyncStd | Smol, Smol => true | _, _ => false end
+                          | None => false end
+              | inr _ => false end
+  | None => false end.
+
 Definition elab (m : model) : rmodel :=
   {| r_cap := cap_of m;
      r_meths := mapi (elab_method m) 0 (m_methods m);
      r_clonable := mem "derive ( Clone )" (m_live_attrs m);
      r_guard := forallb guard_ok (slf_bodies m);
      r_stop_first := stop_first m;
-     r_drain := match m_lib m with Std | Tokio => true | _ => false end |}.
+     r_drain := match m_lib m with Std | Tokio => true | _ => drain_guard m end |}.
